@@ -285,9 +285,9 @@ pub fn property() -> Property {
             },
             check_cap,
         ),
-        prop_family("typing-sessions", 20_000, 800_000, |_| typing_session(), check_session),
-        prop_family("structured-sessions", 15_000, 800_000, |_| structured_session(), check_session),
-        prop_family("hostile-sessions", 20_000, 800_000, |_| hostile_session(), check_session),
+        prop_family("typing-sessions", 80_000, 1_000_000, |_| typing_session(), check_session),
+        prop_family("structured-sessions", 50_000, 1_000_000, |_| structured_session(), check_session),
+        prop_family("hostile-sessions", 80_000, 1_000_000, |_| hostile_session(), check_session),
     ];
     Property {
         id: "C16",
